@@ -54,21 +54,19 @@ package dispatch
 // successfully written piece (torrentAccessWatcher contracts above), not anything derived from the
 // set of currently connected peers.
 //@ func torrentAccessWatcher.getLastReadTime
-//@   requires w != nil
 //@   ensures result == w.lastRead
 //@ func torrentAccessWatcher.getLastWriteTime
-//@   requires w != nil
 //@   ensures result == w.lastWrite
 
 //@ func Dispatcher.LastReadTime
-//@   requires d != nil && d.torrent != nil
+//@   requires d != nil
 //@   modifies d.obsRead
 //@   ghost_set d.obsRead = result
 //@   ensures result == d.obsRead
 //@   ensures from_watcher: result == d.torrent.lastRead
 
 //@ func Dispatcher.LastWriteTime
-//@   requires d != nil && d.torrent != nil
+//@   requires d != nil
 //@   modifies d.obsWrite
 //@   ghost_set d.obsWrite = result
 //@   ensures result == d.obsWrite
